@@ -167,6 +167,17 @@ CHECKS["C04"] = dict(
          "dictionary literals, +/). Module switches and tables not included yet.",
     design_ref="DESIGN.md section 5 C04")
 
+CHECKS["C05"] = dict(
+    technique="TLA+ model of the compiler's caches (KgCache.tla: text-keyed cache cleared on rebinding, per-node memo never cleared, "
+              "admission by value class) model-checked by TLC and used to generate evaluation/rebinding histories; KgEval.tla "
+              "evaluated by TLC as oracle; every history executed by two real interpreters (compiler on / compile_expr stubbed)",
+    text="For histories over 4 evaluation positions x 3 rebinding routes x 7 value classes, instantiated with expressions of the "
+         "compilable grammar (depth <= 2, thorough 3), every evaluation must give the same value - structure, elements, integer/real "
+         "kind, error for error - with and without the compiler, and KgEval's value where defined.",
+    note="Trusted: TLC, KgEval/KgVerbs transcription, the stub of compile_expr (module attribute replaced from the harness). NumPy "
+         "backend only (torch: C08). Disagreements of BOTH runs with KgEval are C01's subject and only counted.",
+    design_ref="DESIGN.md section 5 C05")
+
 NOT_YET = {}
 
 
